@@ -210,6 +210,26 @@ func runSupervised(c *Ctx, prop string) {
 			if v, _ := trackerBad.Load().(string); v != "" {
 				viol("tracker-moved-under-handler", v)
 			}
+		} else if prop == "C06" {
+			// two connections were established; the second is closed now: each gets its one DISCONNECTED
+			closed := CloseWatched(conn)
+			rig.WaitNoLib(WaitShort, 400)
+			nd := 0
+			for _, e := range lg.Events() {
+				if e.Kind == "DISC" {
+					nd++
+				}
+			}
+			if !closed {
+				if ds := rig.ProveDead(WaitShort); ds.Dead {
+					viol("disconnected-never|"+ds.Signature, "Close of the connection the supervisor had established never returns: "+ds.Signature)
+				} else {
+					c.R.Inconcl(fmt.Sprintf("%s: Close did not return (%s)", Case("sup", idx), ds.Reason))
+					return
+				}
+			} else if nd != 2 {
+				viol("disconnected-count", fmt.Sprintf("two connections were established (the second by a supervisor while the first was being torn down) and both ended; DISCONNECTED fired %d times", nd))
+			}
 		} else {
 			type key struct{ g, n int }
 			open := map[key]bool{}
